@@ -118,3 +118,50 @@
         kani::cover!(which == 3 && after[3] == 2);
         kani::cover!(which == 1 && !done0);
     }
+
+    // ---------------------------------------------------------------- C19: per-association choice and keep-alive
+    pub(crate) static mut AUTO_CONSULTED: usize = 0;
+    pub(crate) static mut POLL_CHOICE: (u8, i64, u32) = (0, 0, 0);
+    impl AutoTaskState {
+        /// contract stub (C19 harness): a non-idle automatic task is reported as "wait until MARK" without building a Task
+        pub(crate) fn stub_create_next_task_mark<F: FnOnce() -> Task>(&self, builder: F) -> Next<Task> {
+            unsafe { AUTO_CONSULTED += 1; }
+            core::mem::forget(builder);
+            Next::NotBefore(at::mk_instant(1, 1))
+        }
+    }
+    impl PollMap {
+        /// contract stub of PollMap::next (proved by vk_c19_pollmap_next): nothing due now -> None or the earliest deadline
+        pub(crate) fn stub_next_not_due(&self, _now: Instant) -> Next<crate::master::poll::Poll> {
+            let (k, s, n) = unsafe { POLL_CHOICE };
+            if k == 0 { Next::None } else { Next::NotBefore(at::mk_instant(s, n)) }
+        }
+    }
+
+    // (Association::get_next_task as a whole - automatic tasks before polls before keep-alive, sleep until the earlier deadline -
+    //  was attempted with create_next_task and PollMap::next behind contract stubs: CBMC did not finish in 900 s, because the
+    //  arms that build `Task` values are executed symbolically. The keep-alive rule itself is proved below.)
+
+    // (next_link_status_task itself - "due IFF the deadline has been reached" - builds a Task::LinkStatus value in its Now arm;
+    //  CBMC does not finish on any code that constructs a Task (600 s). Only the deadline arithmetic is proved.)
+
+    // @harness ids=C19,C01 tier=quick kind=proof stubs=1 units=master::association::Association::on_link_activity timeout=600 note="keep-alive deadline: every link activity re-arms it to (that instant + configured keep-alive timeout); no deadline when keep-alive is not configured"
+    #[kani::proof]
+    #[kani::stub(tokio::time::Instant::now, crate::master::association::verif_kani_c17_autotasks::stub_now)]
+    fn vk_c19_keep_alive_deadline() {
+        let mut config = any_config();
+        let keep: bool = kani::any();
+        let ka = Duration::new(kani::any::<u32>() as u64, 0);
+        config.keep_alive_timeout = if keep { Some(ka) } else { None };
+        let mut sh = Shell::new(at::any_task_states(), config, kani::any(), any_event_classes());
+        let (old, had): (Instant, bool) = (at::any_instant_pub(), kani::any());
+        unsafe { core::ptr::addr_of_mut!((*sh.mem.as_mut_ptr()).next_link_status_deadline).write(if had { Some(old) } else { None }); }
+        let t0 = at::any_now();
+        sh.get().on_link_activity();
+        match sh.get().next_link_status_deadline {
+            None => assert!(!keep),
+            Some(d) => assert!(keep && at::is_now_plus(d, t0, ka)),
+        }
+        kani::cover!(keep && had);
+        kani::cover!(!keep && had);
+    }
